@@ -4,7 +4,7 @@ from .. import cfg
 from ..conds import facts_at, truth
 from ..effects import _tsv, Cone
 from ..facts import keyname, AnchorLost
-from ..flow import flow, deps, deep_strip, strip, show, mentions, fold
+from ..flow import infeasible, flow, deps, deep_strip, strip, show, mentions, fold
 from .util import call_sites, foreign, result_gates
 
 CLASS2KIND = {"term": "Term", "core": "Term", "stop": "Stop", "ign": "Ignore", "cont": "Ignore"}
@@ -529,6 +529,36 @@ def rule_d(ctx):
         lits = []
         for e in vals:
             mentions(e, lambda x: lits.append(x) or False if (x[0] == "const" and x[2] is None and (x[3] or "").startswith("&") and "str" in (x[3] or "")) else False)
+        if what == "name":
+            # ... and the row it answers from is the one whose number equals the argument: assuming the comparison `row.number == signal` never
+            # holds, no name is left to return
+            from ..conds import switch_edges
+            from .. import inline
+            cut = set(); cmps = []
+            for (b2, tgt_, lab, exprs, t2) in switch_edges(m):
+                for e in exprs:
+                    e = deep_strip(e)
+                    if e[0] == "binop" and e[1] in ("Eq", "Ne"):
+                        pair = (deep_strip(e[2]), deep_strip(e[3]))
+                        if any(x == ("param", 1) for x in pair) and any(x[0] == "field" for x in pair):
+                            val = int(lab[3:]) if lab.startswith("sw:") else None
+                            is_true = (val is not None and val != 0) or (val is None and [v for v, _ in t2["vals"]] == [0])
+                            if (e[1] == "Eq") == is_true:
+                                cut.add((b2, tgt_))
+                            cmps.append(t2.get("sp"))
+            if cut:
+                m2 = inline.assuming(F, m, cut)
+                fl2 = flow(m2)
+                live = cfg.reachable(m2, 0, unwind=False)
+                left = [e for rb in m2.exits() if rb in live and not m2.blocks[rb].get("dead") for e in fl2.place({"l": 0, "p": []}, (rb, len(m2.stmts(rb))))]
+                def is_none(e):
+                    e = deep_strip(e)
+                    return (e[0] == "const" and e[4] == "None") or (e[0] == "agg" and e[1][0] == "adt" and len(e[1]) > 2 and e[1][2] == "None")
+                named = [show(e)[:100] for e in left if not infeasible(e) and not is_none(e)]
+                ctx.check(not named, rid, "name-lookup:equality", "the name returned belongs to the row whose number equals the argument", m0.span,
+                          {"comparisons": sorted(set(c for c in cmps if c)), "names_left_when_the_comparison_never_holds": named[:4]})
+            else:
+                ctx.ok(rid, "name-lookup:equality", "no equality scan between a row number and the argument in this shape of the lookup: polarity question does not arise", m0.span)
         ctx.check(DET in consts and not tables and not lits, rid, "%s-from-DETAILS" % what.replace(" ", "-"),
                   "the %s %s yields is read out of a DETAILS row" % (what, fname.split("::")[-1]), m0.span,
                   {"tables_consulted": sorted(consts), "other_tables": sorted(tables), "string_literals": [show(x) for x in lits][:4]})
